@@ -2038,7 +2038,429 @@ Proof.
     simpl. lia. }
   split; [vm_compute; reflexivity|].
   intros H.
-  match type of H with ?a = ?b => assert (H1 : (o_votes <$>) ∘ p_options <$> a !! 100%N = (o_votes <$>) ∘ p_options <$> b !! 100%N) by (rewrite H; reflexivity) end.
+  match type of H with ?a = ?b => assert (H1 : (λ p : proposal, map o_votes (p_options p)) <$> a !! 100%N =
+                                       (λ p : proposal, map o_votes (p_options p)) <$> b !! 100%N)
+      by (rewrite H; reflexivity) end.
   vm_compute in H1. discriminate H1.
 Qed.
 Print Assumptions failed_vote_refuted.
+
+(* ================================================================== 19. the recorded validator set has distinct addresses *)
+
+(* a generic walk through DeliverTx for predicates on the working ledgers *)
+Lemma deliver_preserves (P : ledgers → Prop) :
+  (∀ l a x, P l → P (set_acct l a x)) →
+  (∀ s l t l', P l → gov_execute s l t = Ok l' → P l') →
+  (∀ l t l', P l → acct_execute l t = Ok l' → P l') →
+  (∀ s l t l', P l → stake_execute s l t = Ok l' → P l') →
+  (∀ l t l' g, P l → evm_execute l t = Ok (l', g) → P l') →
+  ∀ s t, P (work s) → P (work (deliver s t).1).
+Proof.
+  intros Hacct Hgov Hacc Hstake Hevm s t HP.
+  destruct (deliver s t) as [s' r] eqn:Hd. simpl. unfold deliver in Hd.
+  destruct (accts (work s) !! t_from t) as [sender|] eqn:Es.
+  2:{ inversion Hd; subst. exact HP. }
+  cbv zeta in Hd.
+  destruct (find_or_new _ (t_to t)) as [l0 receiver] eqn:Ef. simpl in Ef.
+  assert (HP0 : P l0).
+  { unfold find_or_new in Ef. destruct (accts (work s) !! t_to t); inversion Ef; subst; auto. }
+  set (s1 := with_work _ l0) in *.
+  destruct (common_validation0 (gparams s) t) as [e|].
+  { inversion Hd; subst. exact HP0. }
+  destruct (common_validation1 sender t) as [e|].
+  { inversion Hd; subst. exact HP0. }
+  match type of Hd with context [match ?v with Ok _ => _ | Err _ => _ | Panic _ => _ end] =>
+    destruct v as [lim'| e | p] end.
+  2,3: inversion Hd; subst; exact HP0.
+  set (s2 := with_lim s1 lim') in *. change (work s2) with l0 in Hd.
+  destruct ((t_type t =? TRX_CONTRACT) || (t_type t =? TRX_TRANSFER) && a_code receiver).
+  - destruct (evm_execute l0 t) as [[l' gas] | e | p] eqn:Ee; inversion Hd; subst; clear Hd; simpl.
+    + eapply Hevm; eassumption.
+    + exact HP0.
+    + exact HP0.
+  - match type of Hd with context [match ?v with Ok _ => _ | Err _ => _ | Panic _ => _ end] =>
+      destruct v as [l'| e | p] eqn:Ex end.
+    2,3: inversion Hd; subst; exact HP0.
+    assert (HP' : P l').
+    { destruct ((t_type t =? TRX_PROPOSAL) || (t_type t =? TRX_VOTING)).
+      - eapply Hgov; eassumption.
+      - destruct ((t_type t =? TRX_TRANSFER) || (t_type t =? TRX_SETDOC)).
+        + eapply Hacc; eassumption.
+        + eapply Hstake; eassumption. }
+    destruct (accts l' !! t_from t) as [snd'|].
+    2:{ inversion Hd; subst. exact HP0. }
+    destruct (sub_balance snd' (fee_of t)) as [snd''|]; inversion Hd; subst; clear Hd; simpl.
+    + apply Hacct. exact HP'.
+    + exact HP'.
+Qed.
+
+Definition dels_keyed (l : ledgers) : Prop := ∀ a d, dels l !! a = Some d → d_addr d = a.
+
+Lemma dels_keyed_same l l' : dels l' = dels l → dels_keyed l → dels_keyed l'.
+Proof. unfold dels_keyed. intros ->. auto. Qed.
+
+Lemma dels_keyed_insert l a d : dels_keyed l → d_addr d = a → dels_keyed (set_dels l (<[a := d]> (dels l))).
+Proof.
+  intros H Hd b x. simpl. intros Hb. apply lookup_insert_Some in Hb.
+  destruct Hb as [(<- & <-)|(_ & Hb)]; [exact Hd|apply H; exact Hb].
+Qed.
+
+Lemma dels_keyed_delete l a : dels_keyed l → dels_keyed (set_dels l (delete a (dels l))).
+Proof.
+  intros H b x. simpl. intros Hb. apply lookup_delete_Some in Hb. apply H. apply Hb.
+Qed.
+
+Lemma del_stake_addr d h : d_addr (del_stake d h) = d_addr d.
+Proof. unfold del_stake. destruct (find_stake h (d_stakes d)); reflexivity. Qed.
+
+Lemma stake_execute_dels_keyed s l t l' : dels_keyed l → stake_execute s l t = Ok l' → dels_keyed l'.
+Proof.
+  unfold stake_execute. intros HK H.
+  destruct (t_type t =? TRX_STAKING) eqn:E1.
+  { destruct (dels l !! t_to t) as [d0|] eqn:Ed.
+    - destruct (accts l !! t_from t) as [sender|]; [|discriminate].
+      destruct (sub_balance sender (t_amount t)) as [sender'|]; [|discriminate].
+      inversion H; subst. apply (dels_keyed_insert (set_acct l (t_from t) sender')); [exact HK|].
+      simpl. apply HK. exact Ed.
+    - destruct (t_from t =? t_to t)%N eqn:Eft; [|discriminate]. apply N.eqb_eq in Eft.
+      destruct (accts l !! t_from t) as [sender|]; [|discriminate].
+      destruct (sub_balance sender (t_amount t)) as [sender'|]; [|discriminate].
+      inversion H; subst. apply (dels_keyed_insert (set_acct l (t_from t) sender')); [exact HK|].
+      simpl. exact Eft. }
+  destruct (t_type t =? TRX_UNSTAKING) eqn:E2.
+  { destruct (dels l !! t_to t) as [d|] eqn:Ed; [|discriminate].
+    destruct (t_payload t) as [ | hs lok | | | | | ]; try discriminate.
+    destruct (find_stake hs (d_stakes d)) as [s0|]; [|discriminate].
+    destruct (negb (s_from s0 =? t_from t)%N); [discriminate|].
+    pose proof (HK _ _ Ed) as Hda.
+    destruct (d_self (del_stake d hs) =? 0).
+    - simpl in H. destruct (d_total (del_stake d hs) - sum_power (d_stakes (del_stake d hs)) =? 0);
+        inversion H; subst.
+      + apply (dels_keyed_delete (set_frozen l _)). exact HK.
+      + apply (dels_keyed_insert (set_frozen l _)); [exact HK|]. simpl. rewrite del_stake_addr. exact Hda.
+    - destruct (d_total (del_stake d hs) =? 0); inversion H; subst.
+      + apply (dels_keyed_delete (set_frozen l _)). exact HK.
+      + apply (dels_keyed_insert (set_frozen l _)); [exact HK|]. rewrite del_stake_addr. exact Hda. }
+  destruct (t_payload t) as [ | | req | | | | ]; try discriminate.
+  destruct (rewards l !! t_from t) as [r|]; [|discriminate].
+  destruct (r_height r >? b_height (bctx s)); [discriminate|].
+  match type of H with context [acct_reward ?l1 ?a ?q] => destruct (acct_reward l1 a q) as [l2|] eqn:Er end;
+    [|discriminate].
+  inversion H; subst. unfold acct_reward in Er.
+  destruct (accts _ !! t_from t) as [x|]; simpl in Er; [|discriminate].
+  destruct (add_balance x req) as [x'|]; simpl in Er; [|discriminate].
+  inversion Er; subst. exact HK.
+Qed.
+
+Lemma deliver_dels_keyed s t : dels_keyed (work s) → dels_keyed (work (deliver s t).1).
+Proof.
+  apply (deliver_preserves dels_keyed).
+  - intros l a x H. exact H.
+  - intros s0 l t0 l' H He.
+    destruct (decide (t_type t0 = TRX_PROPOSAL)) as [Ht|Ht].
+    + destruct (gov_execute_proposal _ _ _ _ Ht He) as (?&?&?&?&?&?&_&->). exact H.
+    + destruct (gov_execute_voting _ _ _ _ Ht He) as (?&?&?&?&_&_&_&->). exact H.
+  - intros l t0 l' H He. unfold acct_execute in He.
+    destruct (accts l !! t_from t0) as [sender|]; [|discriminate].
+    destruct (accts l !! t_to t0) as [receiver|]; [|discriminate].
+    destruct (t_type t0 =? TRX_TRANSFER).
+    + destruct (sub_balance sender (t_amount t0)) as [sender'|]; [|discriminate].
+      destruct (add_balance _ (t_amount t0)) as [recv'|]; [|discriminate].
+      inversion He; subst. exact H.
+    + destruct (t_payload t0); try discriminate. inversion He; subst. exact H.
+  - intros s0 l t0 l' H He. eapply stake_execute_dels_keyed; eassumption.
+  - intros l t0 l' g H He. unfold evm_execute in He.
+    destruct (t_evm t0) as [e|]; [|discriminate]. destruct (negb (e_ok e)); [discriminate|].
+    inversion He; subst. clear He.
+    assert (Hf : ∀ (xs : list (addr * Z * Z)) l, dels_keyed l → dels_keyed (foldl (λ l x, let '(a, bal, nonce) := x in
+                  let old := default acct0 (accts l !! a) in
+                  set_acct l a {| a_nonce := nonce; a_bal := bal; a_code := a_code old; a_name := a_name old; a_doc := a_doc old |})
+                l xs)).
+    { induction xs as [|[[a bal] nonce] xs IH]; intros l1 H1; simpl; [exact H1|]. apply IH. exact H1. }
+    destruct (e_created e); [|apply Hf; exact H].
+    apply (Hf (e_accts e) l H).
+Qed.
+
+Lemma gov_punish_dels l ratio evi : dels (gov_punish l ratio evi) = dels l.
+Proof.
+  unfold gov_punish. revert l. induction evi as [|a evi IH]; intros l; simpl; [reflexivity|].
+  rewrite IH. clear IH.
+  generalize (List.filter (λ kp : hash * proposal, match p_voters kp.2 !! a with Some _ => true | None => false end)
+                (sorted_items (props l))).
+  intros ts. revert l. induction ts as [|kp ts IH]; intros l; simpl; [reflexivity|].
+  rewrite IH. destruct (props l !! kp.1); reflexivity.
+Qed.
+
+Lemma stake_punish_dels_keyed l ratio evi : dels_keyed l → dels_keyed (stake_punish l ratio evi).
+Proof.
+  unfold stake_punish. revert l. induction evi as [|a evi IH]; intros l H; simpl; [exact H|].
+  apply IH. destruct (dels l !! a) as [d|] eqn:Ed; [|exact H].
+  apply dels_keyed_insert; [exact H|]. simpl. apply H. exact Ed.
+Qed.
+
+Lemma process_votes_dels_keyed s l h votes l' iss :
+  dels_keyed l → process_votes s l h votes = Ok (l', iss) → dels_keyed l'.
+Proof.
+  intros HK. unfold process_votes. destruct (ledgers_at s (hgt_of_power h)) as [old|]; [|discriminate].
+  intros H.
+  apply (foldl_res_inv (λ x : ledgers * Z, dels_keyed x.1) _ _) with (a' := (l', iss)) in H; [exact H| |].
+  - clear H. intros acc v [l2 i2] Hacc Hstep.
+    destruct acc as [[l1 i1]| |]; try discriminate.
+    specialize (Hacc _ eq_refl). simpl in Hacc. simpl.
+    destruct v as [[a pw] signed]. destruct signed.
+    + destruct (dels old !! a) as [d|].
+      * destruct (negb (d_total d =? pw)).
+        -- inversion Hstep; subst; exact Hacc.
+        -- destruct (reward_to (gparams s) h (rewards l1) d) as [[rw is]| |]; try discriminate.
+           inversion Hstep; subst. exact Hacc.
+      * inversion Hstep; subst; exact Hacc.
+    + destruct (dels l1 !! a) as [d|] eqn:Ed.
+      * destruct (count_in_window _ _ _) as [cnt m2].
+        destruct (g_signedBlocksWindow (gparams s) - cnt <? g_minSignedBlocks (gparams s)).
+        -- inversion Hstep; subst.
+           simpl. intros b x Hb. simpl in Hb. apply lookup_delete_Some in Hb. destruct Hb as (Hne & Hb).
+           rewrite lookup_insert_ne in Hb by exact Hne. apply Hacc. exact Hb.
+        -- inversion Hstep; subst. apply dels_keyed_insert; [exact Hacc|]. simpl. apply Hacc. exact Ed.
+      * inversion Hstep; subst; exact Hacc.
+  - intros a Ha. inversion Ha; subst. exact HK.
+Qed.
+
+Lemma NoDup_fmap_List_filter {A B} (f : A → B) (P : A → bool) (l : list A) :
+  NoDup (f <$> l) → NoDup (f <$> List.filter P l).
+Proof.
+  induction l as [|x r IH]; intros H; simpl; [constructor|].
+  simpl in H. apply NoDup_cons in H. destruct H as (Hx & Hr).
+  destruct (P x); [|apply IH; exact Hr].
+  simpl. apply NoDup_cons. split; [|apply IH; exact Hr].
+  intros Hin. apply Hx. apply elem_of_list_fmap in Hin. destruct Hin as (y & -> & Hy).
+  apply elem_of_list_fmap. exists y. split; [reflexivity|].
+  apply elem_of_list_In. apply elem_of_list_In in Hy. apply filter_In in Hy. apply Hy.
+Qed.
+
+Lemma NoDup_take {A} (l : list A) n : NoDup l → NoDup (take n l).
+Proof. intros H. rewrite <- (take_drop n l) in H. apply NoDup_app in H. apply H. Qed.
+
+Lemma keyed_items_addrs (m : gmap addr delegatee) :
+  (∀ a d, m !! a = Some d → d_addr d = a) →
+  d_addr <$> (snd <$> sorted_items m) = fst <$> sorted_items m.
+Proof.
+  intros H.
+  assert (Hall : Forall (λ kd : addr * delegatee, d_addr kd.2 = kd.1) (sorted_items m)).
+  { apply Forall_forall. intros [k d] Hin. apply elem_of_sorted_items in Hin. simpl. apply H. exact Hin. }
+  induction Hall as [|[k d] r Hk _ IH]; [reflexivity|]. simpl in Hk.
+  change (d_addr d :: (d_addr <$> r.*2) = k :: r.*1). rewrite Hk. f_equal. exact IH.
+Qed.
+
+Definition vals_inv (s : state) : Prop :=
+  dels_keyed (work s) ∧ dels_keyed (base_of s) ∧ NoDup (d_addr <$> alldels s) ∧ NoDup (lastvals s).*1.
+
+Lemma begin_block_vals_inv s hd : vals_inv s → vals_inv (begin_block s hd).1.
+Proof.
+  intros (Kw & Kb & Na & Nl). unfold begin_block.
+  destruct (negb (h_height hd =? last_height s + 1)); [repeat split; assumption|].
+  cbv zeta.
+  set (l1 := gov_punish (work s) (g_slashRatio (gparams s)) (h_evidence hd)).
+  set (l2 := stake_punish l1 (g_slashRatio (gparams s)) (h_evidence hd)).
+  assert (K2 : dels_keyed l2).
+  { apply stake_punish_dels_keyed. apply (dels_keyed_same (work s)); [apply gov_punish_dels|exact Kw]. }
+  assert (Nall : NoDup (d_addr <$> sort_power (List.filter (λ d, min_power (gparams s) <=? d_self d)
+                                     (snd <$> sorted_items (dels (base_of s)))))).
+  { unfold sort_power. rewrite merge_sort_Permutation. apply NoDup_fmap_List_filter.
+    rewrite (keyed_items_addrs _ Kb). apply NoDup_keys_sorted_items. }
+  destruct (h_votes hd) as [|v votes]; simpl.
+  { repeat split; assumption. }
+  destruct (process_votes _ l2 (h_height hd) (v :: votes)) as [[l3 issued]| e | p] eqn:Ep; simpl.
+  - split; [|repeat split; assumption]. eapply process_votes_dels_keyed; [exact K2|exact Ep].
+  - repeat split; assumption.
+  - repeat split; assumption.
+Qed.
+
+Lemma unfreeze_dels base l h l' : unfreeze base l h = Ok l' → dels l' = dels l.
+Proof.
+  unfold unfreeze. intros H.
+  apply (foldl_res_inv (λ x : ledgers, dels x = dels l) _ _) in H; [exact H| |].
+  - clear H. intros acc kp l2 Hacc Hstep.
+    destruct acc as [l1| |]; try discriminate. specialize (Hacc _ eq_refl).
+    destruct (s_refund kp.2 <=? h).
+    + destruct (acct_reward l1 (s_from kp.2) (power_to_amount (s_power kp.2))) as [l3|] eqn:Er; [|discriminate].
+      inversion Hstep; subst. simpl. unfold acct_reward in Er.
+      destruct (accts l1 !! s_from kp.2) as [x|]; simpl in Er; [|discriminate].
+      destruct (add_balance x _) as [x'|]; simpl in Er; [|discriminate].
+      inversion Er; subst. exact Hacc.
+    + inversion Hstep; subst. exact Hacc.
+  - intros a Ha. inversion Ha; subst. reflexivity.
+Qed.
+
+Lemma end_block_vals_inv s : vals_inv s → vals_inv (end_block s).1.
+Proof.
+  intros (Kw & Kb & Na & Nl). unfold end_block.
+  destruct (freeze_proposals (base_of s) (work s) (b_height (bctx s))) as [l1|e|e] eqn:Ef;
+    [|repeat split; assumption..].
+  destruct (apply_proposals s (base_of s) l1 (b_height (bctx s))) as [[l2 np]|e|e] eqn:Ea;
+    [|repeat split; assumption..].
+  destruct (freeze_proposals_spec _ _ _ _ Ef) as ((_ & D1 & _) & _).
+  destruct (apply_proposals_spec _ _ _ _ _ _ Ea) as ((_ & D2 & _) & _).
+  match goal with |- context [match ?x with Some l3 => _ | None => _ end] =>
+    destruct x as [l3|] eqn:E3 end; [|repeat split; assumption].
+  assert (D3 : dels l3 = dels l2).
+  { destruct (b_proposer (bctx s)) as [pa|].
+    - destruct (0 <? sign256 (b_feesum (bctx s))).
+      + destruct (add_balance _ _) as [x|]; [|discriminate]. inversion E3; subst. reflexivity.
+      + inversion E3; subst. reflexivity.
+    - inversion E3; subst. reflexivity. }
+  destruct (unfreeze (base_of s) l3 (b_height (bctx s))) as [l4|e|e] eqn:Eu; [|repeat split; assumption..].
+  apply unfreeze_dels in Eu.
+  destruct (g_maxValidatorCnt (gparams s) <? 0); [repeat split; assumption|].
+  simpl. split; [|split; [exact Kb|split; [exact Na|]]].
+  - apply (dels_keyed_same (work s)); [|exact Kw]. simpl. rewrite Eu, D3, D2, D1. reflexivity.
+  - simpl. rewrite <- list_fmap_compose.
+    change (fst ∘ (λ d : delegatee, (d_addr d, d_total d))) with d_addr.
+    rewrite fmap_take. apply NoDup_take. exact Na.
+Qed.
+
+Lemma init_chain_dels_keyed g : dels_keyed (work (init_chain g)).
+Proof.
+  unfold init_chain. simpl.
+  set (l2 := foldl (λ l v, (find_or_new l v.1).1) _ (gen_validators g)).
+  assert (H2 : dels l2 = ∅).
+  { unfold l2.
+    assert (Ha : ∀ (hs : list (addr * Z)) l, dels (foldl (λ l h, set_acct l h.1 {| a_nonce := 0; a_bal := h.2; a_code := false; a_name := 0%N; a_doc := 0%N |}) l hs) = dels l).
+    { induction hs as [|x hs IH]; intros l; simpl; [reflexivity|]. rewrite IH. reflexivity. }
+    assert (Hb : ∀ (vs : list (addr * Z)) l, dels (foldl (λ l v, (find_or_new l v.1).1) l vs) = dels l).
+    { induction vs as [|x vs IH]; intros l; simpl; [reflexivity|]. rewrite IH.
+      unfold find_or_new. destruct (accts l !! x.1); reflexivity. }
+    rewrite Hb, Ha. reflexivity. }
+  assert (H3 : ∀ (vs : list (addr * Z)) l, dels_keyed l →
+    dels_keyed (foldl (λ l v, set_dels l (<[v.1 := add_stake (new_delegatee v.1)
+               {| s_from := v.1; s_to := v.1; s_hash := 0%N; s_start := 1; s_refund := 0; s_power := v.2 |}]> (dels l))) l vs)).
+  { induction vs as [|x vs IH]; intros l H; simpl; [exact H|]. apply IH.
+    apply dels_keyed_insert; [exact H|reflexivity]. }
+  apply H3. intros a d. rewrite H2. intros Hx. rewrite lookup_empty in Hx. discriminate.
+Qed.
+
+(* in every state of every run the recorded validator set has pairwise distinct addresses *)
+Theorem lastvals_nodup g ops : NoDup (lastvals (srun (init_chain g) ops)).*1.
+Proof.
+  unfold srun.
+  assert (H : ∀ ops s, vals_inv s → vals_inv (foldl sstep s ops)).
+  { induction ops0 as [|o ops0 IH]; intros s Hs; simpl; [exact Hs|]. apply IH.
+    destruct o as [hd|t| |]; simpl.
+    - apply begin_block_vals_inv. exact Hs.
+    - destruct Hs as (Kw & Kb & Na & Nl).
+      destruct (deliver s t) as [s' r] eqn:Hd.
+      destruct (deliver_inv _ _ _ _ Hd) as ((C1 & C2 & C3 & C4 & C5 & _) & _). simpl.
+      split; [|split; [|split]].
+      + pose proof (deliver_dels_keyed s t Kw) as K. rewrite Hd in K. exact K.
+      + rewrite (base_of_same _ _ C1 C2). exact Kb.
+      + rewrite C4. exact Na.
+      + rewrite C5. exact Nl.
+    - apply end_block_vals_inv. exact Hs.
+    - destruct Hs as (Kw & Kb & Na & Nl). split; [exact Kw|]. split; [|split; assumption].
+      unfold base_of. simpl. rewrite last_snoc. exact Kw. }
+  destruct (H ops (init_chain g)) as (_ & _ & _ & N); [|exact N].
+  split; [apply init_chain_dels_keyed|]. split.
+  - unfold base_of. change (committed (init_chain g)) with (@nil ledgers). simpl.
+    intros a d Hx. simpl in Hx. rewrite lookup_empty in Hx. discriminate.
+  - split; constructor.
+Qed.
+Print Assumptions lastvals_nodup.
+
+(* G2 over runs: the voter table of a submitted proposal is exactly the current validator set with
+   its powers, and the recorded total voting power is the sum of the recorded voters' powers *)
+Theorem proposal_submission_voters g ops t s' gas :
+  let s := srun (init_chain g) ops in
+  deliver s t = (s', Ok gas) → t_type t = TRX_PROPOSAL →
+  ∃ p, props (work s') !! t_hash t = Some p ∧
+       (∀ a v, p_voters p !! a = Some v ↔ v_choice v = -1 ∧ (a, v_power v) ∈ lastvals s) ∧
+       total_ok p ∧ maj_ok p ∧ tally_ok p ∧ p_major p = None.
+Proof.
+  simpl. intros Hd Ht.
+  destruct (proposal_submission _ _ _ _ Hd Ht) as (_ & _ & st & pe & ap & ot & os & pk & Hpl & H).
+  cbv zeta in H. destruct H as (Hp & _).
+  pose proof (lastvals_nodup g ops) as Hnd.
+  exists (new_proposal (lastvals (srun (init_chain g) ops)) (t_hash t) st pe ap ot os).
+  split; [rewrite Hp; apply lookup_insert|].
+  split; [|split; [apply new_proposal_total; exact Hnd|split; [reflexivity|split; [apply new_proposal_tally|reflexivity]]]].
+  intros a v. split.
+  - intros Hv. eapply new_proposal_voters_choice. exact Hv.
+  - intros (Hc & Hin). destruct v as [pw c]. simpl in Hc, Hin. subst c.
+    apply new_proposal_voters_in; assumption.
+Qed.
+Print Assumptions proposal_submission_voters.
+
+(* ================================================================== 20. C15 end to end *)
+
+(* pending parameters always stem from a frozen proposal that certifies a two-thirds decision *)
+Definition pending_inv (s : state) : Prop :=
+  ∀ m, newparams s = Some m →
+  ∃ p o newp, frozen_ok p ∧ p_major p = Some o ∧ p_opttype p = PROPOSAL_GOVPARAMS ∧
+              o_params o = Some newp ∧ m = merge_params (gparams s) newp.
+
+Lemma pending_inv_step s o : gov_inv s → pending_inv s → pending_inv (sstep s o).
+Proof.
+  intros Hg Hp. destruct o as [hd|t| |]; simpl.
+  - destruct (begin_block_params_unchanged s hd) as (A & B & _). unfold pending_inv. rewrite A, B. exact Hp.
+  - destruct (deliver_params_unchanged s t) as (A & B & _). unfold pending_inv. rewrite A, B. exact Hp.
+  - destruct (end_block_params s) as (A & _ & [(B & _)|(k & p & o & newp & Hk & _ & Ht & Hm & Ho & B & _)]).
+    + unfold pending_inv. rewrite A, B. exact Hp.
+    + intros m Hmm. rewrite B in Hmm. inversion Hmm; subst m. exists p, o, newp.
+      destruct Hg as (_ & (_ & Bf)). rewrite A. repeat split; auto. exact (Bf k p Hk).
+  - intros m Hm. simpl in Hm. discriminate.
+Qed.
+
+(* C15, end to end.  Whenever a Commit changes the active governance parameters, the new
+   parameters are the field-wise merge of the old ones with the parameter document of the major
+   option [o] of a frozen proposal [p]; [o] is an option of [p], no option of [p] has more votes,
+   its votes are at least floor(2 * total / 3) of the proposal's recorded total power, and they are
+   the summed recorded power of recorded voters (tally of the committed version at freezing). *)
+Theorem c15_parameter_change g ops :
+  let s := srun (init_chain g) ops in
+  gparams (commit s) ≠ gparams s →
+  ∃ p o newp,
+    p_major p = Some o ∧ p_opttype p = PROPOSAL_GOVPARAMS ∧ o_params o = Some newp ∧
+    gparams (commit s) = merge_params (gparams s) newp ∧
+    o ∈ p_options p ∧ (∀ o', o' ∈ p_options p → o_votes o' ≤ o_votes o) ∧
+    (p_total p * 2) `quot` 3 ≤ o_votes o ∧ (∃ i : Z, o_votes o = votes_for (p_voters p) i) ∧
+    lparams (work s) = gparams (commit s).
+Proof.
+  simpl. unfold srun.
+  assert (H : ∀ ops s, gov_inv s ∧ pending_inv s → gov_inv (foldl sstep s ops) ∧ pending_inv (foldl sstep s ops)).
+  { induction ops0 as [|o ops0 IH]; intros s Hs; simpl; [exact Hs|]. apply IH. destruct Hs as (Hg & Hp).
+    split; [apply gov_inv_step; exact Hg|apply pending_inv_step; assumption]. }
+  destruct (H ops (init_chain g)) as (_ & Hp).
+  { split.
+    - destruct (init_chain_props g) as (P1 & P2). split.
+      + split; [rewrite P1|rewrite P2]; apply map_Forall_empty.
+      + unfold base_of. change (committed (init_chain g)) with (@nil ledgers). simpl.
+        split; apply map_Forall_empty.
+    - intros m Hm. discriminate Hm. }
+  intros Hne.
+  pose proof (active_params_are_stored g ops) as (_ & Hst). simpl in Hst. unfold srun in Hst.
+  set (s := foldl sstep (init_chain g) ops) in *. clearbody s.
+  destruct (newparams s) as [m|] eqn:En.
+  2:{ exfalso. apply Hne. reflexivity. }
+  destruct (Hp m En) as (p & o & newp & (o' & F1 & F2 & F3 & F4 & F5 & F6) & Hm & Ht & Ho & Hmm).
+  assert (o' = o) by congruence. subst o'.
+  exists p, o, newp. simpl. rewrite <- F5.
+  repeat split; auto.
+Qed.
+Print Assumptions c15_parameter_change.
+
+Print Assumptions deliver_params_unchanged.
+Print Assumptions begin_block_params_unchanged.
+Print Assumptions end_block_params.
+Print Assumptions params_change_only_at_commit.
+Print Assumptions only_gov_tx_touch_proposals.
+Print Assumptions prop_vote_tally.
+Print Assumptions prop_punish_tally.
+Print Assumptions prop_punish_total.
+Print Assumptions prop_punish_total_refuted.
+Print Assumptions freeze_proposals_spec.
+Print Assumptions apply_proposals_spec.
+Print Assumptions sort_opts_spec.
+Print Assumptions sort_opts_head.
+Print Assumptions end_block_freeze.
+Print Assumptions frozen_has_two_thirds.
+Print Assumptions end_block_apply.
+Print Assumptions merge_params_fields.
+Print Assumptions proposal_submission_nowrap.
